@@ -897,6 +897,7 @@ func unchanged(l ...interface{}) bool { return true }
 func call[T any](f interface{}, args ...interface{}) (r T) { return }
 func callb(f interface{}, args ...interface{}) bool { return true }
 func cloinv(f interface{}) bool { return true }
+func postof(contract string, argsAndResults ...interface{}) bool { return true }
 func captures(f interface{}) interface{} { return nil }
 func visited(k interface{}) bool { return true }
 func ncalls() int { return 0 }
